@@ -178,3 +178,33 @@ package goat
 //@     | len(rpc.Header.ProxyRecord) == len(aftercall("rpcIntercepter", rpc.Header.ProxyRecord)) + 1 && rpc.Header.ProxyRecord[len(rpc.Header.ProxyRecord) - 1] == p.id
 //@     | && (forall j Int :: 0 <= j && j < len(aftercall("rpcIntercepter", rpc.Header.ProxyRecord)) ==> rpc.Header.ProxyRecord[j] == aftercall("rpcIntercepter", rpc.Header.ProxyRecord)[j])
 //@   ensures[C16.interceptor_error_drops] bound("err") && err != nil ==> ncalls("send") == old(ncalls("send")) && rpc.Header.ProxyRecord == aftercall("rpcIntercepter", rpc.Header.ProxyRecord)
+
+//@ chanclass goat.proxy.commands msg: (m.rpc == nil && m.err != nil ==> m.client != nil && m.client.id == m.id)
+//@ objinv[C17.objinv C16.objinv] goat.Proxy : isclass(self.commands, "goat.proxy.commands")
+//@ objinv[C17.objinv C16.objinv] goat.proxyClient : self.toServer != nil && self.fromServer != nil && isclass(self.toServer, "goat.proxy.commands")
+
+//@ func goat.NewProxy
+//@   nopanic[C17.nopanic]
+//@   makechan 0 tag 0 class goat.proxy.commands
+
+//@ func goat.(*Proxy).serveClients
+//@   nopanic[C17.nopanic]
+//@   requires ctx != nil
+//@   loop 0 invariant[C17.serve_loop] true
+//@   atcall[C17.remove_only_failed_connection] builtin delete : bound("cmd") && cmd.client != nil && p.clients[cmd.id] == cmd.client
+//@   atcall[C17.forward_under_senders_name C16.forward_under_senders_name] goat.(*Proxy).forwardRpc : arg1 == cmd.id && arg2 == cmd.rpc
+
+//@ func goat.(*proxyClient).readLoop
+//@   nopanic[C17.nopanic C16.nopanic]
+//@   requires ctx != nil && c.conn != nil
+//@   atcall[C16.offer_each_envelope_once C17.offer_under_own_name] send : arg1.id == c.id && (arg1.rpc != nil ==> arg1.rpc == rpc && arg1.err == nil) && (arg1.rpc == nil ==> arg1.err != nil && arg1.client == c)
+
+//@ func goat.(*proxyClient).writeLoop
+//@   nopanic[C17.nopanic C16.nopanic]
+//@   requires ctx != nil && c.conn != nil
+//@   atcall[C16.write_unchanged] (types.RpcReadWriter).Write : arg2 == rpc && arg1 == ctx
+
+//@ func goat.(*proxyClient).connect
+//@   nopanic[C17.nopanic]
+//@   requires newConnection != nil
+//@   ensures[C17.dial_error_reported_not_started] bound("err") && err != nil ==> ncalls("send") == old(ncalls("send")) + 1 && ncalls("go:(*github.com/avos-io/goat.proxyClient).readWrite") == old(ncalls("go:(*github.com/avos-io/goat.proxyClient).readWrite"))
